@@ -49,6 +49,8 @@ def bounds(tier):
 
 def alphabet(n):
     ops = [["append", nm] for nm in NAMES] + [["insert0", nm] for nm in ("A", "", "a")]
+    # items whose unit, value, description (and data) are identical to each other: only their position tells them apart
+    ops += [["append_twin", "A"], ["append_twin", ""]]
     if n:
         ops += [["del0"], ["dellast"]]
     return ops
@@ -83,6 +85,10 @@ def build(root, history):
             section.append(c13.new_item(factory, op[1], step))
         elif op[0] == "insert0":
             section.insert(0, c13.new_item(factory, op[1], step))
+        elif op[0] == "append_twin":
+            it = c13.new_item(factory, op[1], 0)
+            it.value = "twin"
+            section.append(it)
         elif op[0] == "del0":
             del section[0]
         elif op[0] == "dellast":
@@ -117,6 +123,11 @@ def probe_state(root, history):
                 "expected": expected, "observed": observed, "size": len(history),
                 "repro": "section built by %r from root %s; probe key %r" % (history, root, key)}
 
+    # a plain attribute stored on ANOTHER (empty) section under each probe name: sections do not share attribute state
+    other = SectionItems()
+    for k in PROBES:
+        if k.isidentifier() and not keyword.iskeyword(k) and k not in LIST_ATTRS:
+            setattr(other, k, "plain attribute of another section")
     for k in PROBES:
         pos = c13.first_match(keys, k, ci)
         # membership
@@ -198,6 +209,20 @@ def probe_state(root, history):
                 vio.append(V("set-value", k, "value of item %d set" % pos, "KeyError"))
         except Exception as e:
             vio.append(V("set-value", k, "value set or KeyError", repr(e)))
+        # s.k = plain value (attribute form of the same assignment) for a key that is present
+        if pos is not None and k.isidentifier() and not keyword.iskeyword(k) and k not in LIST_ATTRS:
+            n += 1
+            s = build(root, history)
+            ref = content(s)
+            try:
+                setattr(s, k, "NEW VALUE")
+                want = list(ref)
+                m, o, u, v, d, dd = want[pos]
+                want[pos] = (m, o, u, repr("NEW VALUE"), d, dd)
+                if content(s) != want:
+                    vio.append(V("setattr-value", k, want, content(s)))
+            except Exception as e:
+                vio.append(V("setattr-value", k, "value of item %d set" % pos, repr(e)))
         # del s[k]
         n += 1
         s = build(root, history)
@@ -271,7 +296,7 @@ def probe_state(root, history):
 
 
 def canon_state(section):
-    return (bool(section.mnemonic_transforms), tuple((i.mnemonic, i.original_mnemonic) for i in section))
+    return (bool(section.mnemonic_transforms), tuple((i.mnemonic, i.original_mnemonic, i.value == "twin") for i in section))
 
 
 def units(tier, seed):
